@@ -293,6 +293,10 @@ func GenAction(t *rapid.T, p *Profile, cfg *Config, ops []string) Action {
 	case "readburst":
 		a.N = rapid.IntRange(17, 120).Draw(t, "nreads")
 		a.Sel = rapid.IntRange(0, 4).Draw(t, "stride")
+		if rapid.IntRange(0, 2).Draw(t, "pattern") == 0 {
+			a.Sel = rapid.IntRange(5, 9).Draw(t, "patternsel")
+			a.N = 17 * rapid.IntRange(1, 3).Draw(t, "n17")
+		}
 	case "burst":
 		a.N = rapid.IntRange(2050, 2300).Draw(t, "nburst")
 		a.Sel = rapid.IntRange(0, 59).Draw(t, "span")
